@@ -1,12 +1,11 @@
 (* C13 — encoding is linear over GF(2^16).  Additivity and the zero case are proved for all
    inputs (C13_add_*, C13_zero) from the distributivity of the field (FieldFacts) by relational
-   parametricity of the schedules (Param); scaling by a constant is shown on instances
-   (C13_instances) — the general scaling theorem needs commutativity of the table product and
-   is in progress. *)
+   parametricity of the schedules (Param); scaling by a constant likewise (C13_scale, using the
+   associativity and commutativity of the table product, Ring). *)
 From Coq Require Import NArith Bool List Lia.
 From RS.Gen Require Import Prelude GenConsts.
 From RS.Model Require Import Field Tables Sched Codec Spec.
-From RS.Proofs Require Import FieldFacts Param Linear.
+From RS.Proofs Require Import FieldFacts Param Linear Scale.
 Import ListNotations.
 Local Open Scope N_scope.
 
@@ -50,6 +49,14 @@ Theorem C13_zero : forall e K R n,
   Forall (fun x => x = 0) (encode_low sym_ops e K R (repeat 0 n)).
 Proof. intros; split; [apply encode_high_zero|apply encode_low_zero]. Qed.
 Print Assumptions C13_zero.
+
+(* scaling: multiplying every original symbol by a field constant c multiplies every recovery
+   symbol by c (c * x is the table product fmul, a commutative field multiplication: Ring) *)
+Theorem C13_scale : forall c e K R w, c < 65536 -> Forall W16 w ->
+  encode_high sym_ops e K R (map (fmul c) w) = map (fmul c) (encode_high sym_ops e K R w) /\
+  encode_low sym_ops e K R (map (fmul c) w) = map (fmul c) (encode_low sym_ops e K R w).
+Proof. intros; split; [apply encode_high_scale|apply encode_low_scale]; assumption. Qed.
+Print Assumptions C13_scale.
 
 (* every engine primitive and the decoder's data path are linear as well *)
 Theorem C13_primitives : forall e size trunc sd w1 w2, length w1 = length w2 -> Forall W16 w1 -> Forall W16 w2 ->
